@@ -419,7 +419,7 @@ def run(rep: Report, prog: Program, tier: str) -> None:
 
     from .common import forwarding_slice
 
-    forwarding_slice(rep, "R3.12", prog, ("abort_if", "budget", "result_classifier", "classifier"), "what decides whether a retry is permitted is what the caller passed: abort_if, budget, classifier and result_classifier reach the runner / the retry component unchanged through every layer incl. the bound contexts (= their obligations of C12 R12.3)")
+    forwarding_slice(rep, "R3.12", prog, ("abort_if", "budget", "result_classifier", "classifier", "sleep", "sleep_fn"), "what decides whether a retry is permitted is what the caller passed: abort_if, budget, the sleep handler (which may defer or abort), classifier and result_classifier reach the runner / the retry component unchanged through every layer incl. the bound contexts (= their obligations of C12 R12.3)")
     # the remaining conjuncts of "retry exactly when permitted" are decided by the rules of the
     # properties that own them; they are re-run here under this property's id
     from .c10 import budget_shape
